@@ -184,6 +184,7 @@ def snapshot(fe, kernel, cp, dep, ignore_unknown, bits):
     t["portline"] = call(lambda: fe._get_port_number_line(fe._get_max_port_len(kernel), separator="|"))
     t["cv"] = call(lambda: fe.combined_view(kernel, cp, dep, ignore_unknown))
     t["cv_other"] = call(lambda: fe.combined_view(kernel, cp, dep, not ignore_unknown))
+    t["lcdlist"] = call(lambda: fe.loopcarried_dependencies(dep))
 
     class DG:
         def get_critical_path(self):
@@ -259,14 +260,17 @@ def report_case(t, cid, real=False):
   [("maxlen", res_eqb (list_eqb Z.eqb) (g_get_max_port_len ports k) %s);
    ("cv", res_hash_eqb (g_combined_view ports rp ss sl pl k cp lcd %s true) %s);
    %s
+   ("lcd-list", res_hash_eqb (g_loopcarried_dependencies lcd "|") %s);
    ("dict", res_eqb ddict_eqb (g_full_analysis_dict ports k tt %s %s %s cp lcd) %s)]%s)""" % (
         lst(cs(p) for p in t["ports"]), coq_reprs(t["reprs"]), coq_sums(t["sums"]), seplist, portline, k, cp, lcd,
         res(t["maxlen"], lambda v: lst(z(x) for x in v)),
-        b(t["ign"]), res(t["cv"], digest), "" if real else other,
+        b(t["ign"]), res(t["cv"], digest), "" if real else other, res(t["lcdlist"], digest),
         b(t["bits"][0]), b(t["bits"][1]), b(t["bits"][2]), res(t["dict"], coq_dict),
         """ ++ [("hyp-wf-lines", forallb (fun x => Nat.eqb (List.length (p_press x)) (List.length ports)) k);
       ("hyp-separators", Nat.eqb (List.length (sl "|" " ")) (List.length ports));
       ("hyp-ports", negb (Nat.eqb (List.length ports) 0));
+      ("hyp-lcd-keys", forallb (fun p => andb (String.eqb (fst p) (lcd_key (lcd_entry_of (snd p))))
+                                  (match pl_deps (snd p) with (x, _) :: _ => Z.leb 0 (p_num x) | [] => false end)) lcd);
       ("hyp-repr-ok", forallb (fun p => Z.eqb (py_len_str (py_split_first "."%%char (snd p))) (Z.of_nat (left_len (fst p)))) %s)]"""
         % coq_reprs(t["reprs"]) if real else "") + ".\n"
 
@@ -433,6 +437,8 @@ def gen_report_input(rng):
             members = members + members[:1]                                     # a line twice in one dependency
         lats = [rng.choice([1.0, 4.0, 0.5, 3, 2.5, 0.0]) for _ in members]
         key = "-".join(str(kernel[i].line_number) for i in members)
+        if rng.random() < 0.04:
+            key = rng.choice(["abc", "", "x-1", "-3"])                           # int() of the first part raises ValueError
         dep[key] = {"root": kernel[members[0]], "dependencies": [(kernel[i], lt) for i, lt in zip(members, lats)],
                     "latency": rng.choice([float(sum(lats)), 4.0, 4.0, 8.0, 12.5, 100.0])}
     return fe, kernel, cp, dep, rng.random() < 0.5, [rng.random() < 0.5 for _ in range(3)]
@@ -634,7 +640,7 @@ def cross_check(ctx, results):
             details.append("%s: translated Gallina != Python (%s)" % (chunk[int(j)], tag))
     ctx.count(total)
     ctx.coverage["c13tie_crosscheck"] = dict(hist, cases=total, shards=len(shards))
-    ctx.obligation("translator cross-check: regenerated Gallina = Python combined_view / full_analysis_dict / _get_max_port_len on "
+    ctx.obligation("translator cross-check: regenerated Gallina = Python combined_view / loopcarried_dependencies / full_analysis_dict / _get_max_port_len on "
                    "%d real and %d synthetic reports (whole text, every float bit, exception classes) and _get_port_pressure / "
                    "_get_lcd_cp_ports / _get_flag_symbols / _missing_instruction_error / warnings on %d unit inputs"
                    % (hist["real_reports"], hist["synthetic_reports"], len(uterms)),
